@@ -14,7 +14,7 @@ import logging
 import os as _real_os
 import random as _random
 
-from mc.core import Check, h
+from mc.core import Check
 
 CPU = 2                  # fixed answer of tornado.process.cpu_count during a case
 UNKNOWN_PID = 7          # never handed out by the shim's fork()
